@@ -6132,8 +6132,12 @@ class Choice:
             return
 
         if self._user_selection is not None:
-            for sym in self.syms:
-                self.kconfig.set_value_and_source(sym, sym.bool_value, self.kconfig.filename)
+            # Only when the user's pick is the member that is selected right now. If the pick is hidden at the moment,
+            # the choice merely falls back to another member; writing that fallback down as user values would replace
+            # the user's pick with it.
+            if self.selection is self._user_selection:
+                for sym in self.syms:
+                    self.kconfig.set_value_and_source(sym, sym.bool_value, self.kconfig.filename)
             # In this case, we did not resolve "defaults", but the flag can still be used.
             self._defaults_resolved = True
             return
